@@ -318,6 +318,9 @@ def check(case):
                 bad.append(idx)
         base = flag & 0x1F
         fclass = "ALL" if flag == 1 else ("ACP-only" if flag == 0x81 else "NONE-SINGLE")
+        cls.append(f"nt:sign/{family}/{'n_in>=2' if n_in >= 2 else 'n_in=1'}/{fclass}")
+        if base == 3 and n_in > len(outs):
+            cls.append(f"nt:sign/{family}/single-with-input-index-beyond-outputs")
         if bad:
             f.add(f"input-invalid/{family}/{'n_in>=2' if n_in >= 2 else 'n_in=1'}/{fclass}", f"{kind}: inputs {bad} of {n_in} do not satisfy their scriptPubKey (flag {flag:#x}, version {version}, locktime {locktime})")
         for n in sorted(set(notes)):
@@ -381,8 +384,10 @@ def cases(draw, signed=None):
 def targets(tier):
     built = [f"built:{k}" for k in LEGACY + SEGWIT]
     return [
-        Target("signed", check, strategy=lambda tier: cases(signed=True), budget={"quick": 640, "thorough": 10000},
-               required=built + ["nt:n_in>=2", "nt:vout!=idx", "nt:float-misround", "nt:flag!=ALL", "nt:non-default-version-locktime", "nt:outputs-of-same-tx"]),
+        Target("signed", check, strategy=lambda tier: cases(signed=True), budget={"quick": 960, "thorough": 12000},
+               required=built + ["nt:n_in>=2", "nt:vout!=idx", "nt:float-misround", "nt:flag!=ALL", "nt:non-default-version-locktime", "nt:outputs-of-same-tx"]
+               + [f"nt:sign/{fam}/{n}/{fc}" for fam in ("legacy", "segwit") for n in ("n_in=1", "n_in>=2") for fc in ("ALL", "ACP-only", "NONE-SINGLE")]
+               + ["nt:sign/legacy/single-with-input-index-beyond-outputs", "nt:sign/segwit/single-with-input-index-beyond-outputs"]),
         Target("unsigned", check, strategy=lambda tier: cases(signed=False), budget={"quick": 1600, "thorough": 30000},
                required=["nt:n_in>=2", "nt:float-misround", "refused"]),
     ]
